@@ -56,14 +56,17 @@ def fq(h):
 
 
 HARNESSES = []
+FS256 = ["--max-field-sensitivity-array-size", "256"]   # keep concrete bytes of buffers up to 256 B constant for symex
+FS1K = ["--max-field-sensitivity-array-size", "1024"]
 
 
 def H(prop, module, name, tier="quick", timeout=120, bounds="", encodes=(), stubs=(), assumes=(),
-      expect="pass", replay="playback", unwind=None, kani_args=(), unwind_is_violation=False, note=""):
+      expect="pass", replay="playback", unwind=None, kani_args=(), unwind_is_violation=False, note="",
+      no_cover=None, cbmc_args=()):
     HARNESSES.append(dict(prop=prop, module=module, name=name, tier=tier, timeout=timeout, bounds=bounds,
                           encodes=list(encodes), stubs=list(stubs), assumes=list(assumes), expect=expect,
                           replay=replay, unwind=unwind, kani_args=list(kani_args),
-                          unwind_is_violation=unwind_is_violation, note=note))
+                          unwind_is_violation=unwind_is_violation, note=note, no_cover=no_cover, cbmc_args=list(cbmc_args)))
 
 
 def select(prop, tier):
@@ -125,11 +128,115 @@ for n, t in ((0, "quick"), (1, "quick"), (7, "thorough"), (8, "quick"), (9, "qui
 H("C11", "blowfish", "c11_tables_are_pi", bounds="all 18 + 1024 table words vs pi digits generated at check time",
   encodes=["blowfish::constants::BLOWFISH_P", "blowfish::constants::BLOWFISH_S"])
 _KS = dict(encodes=["blowfish::Blowfish::new"], replay="structural", unwind=130,
+           kani_args=["--no-assertion-reach-checks"],
+           no_cover="harness has no kani::assume (vacuity impossible); cover!/reachability checks removed because CBMC's "
+                    "trace generation for them took 290 of 335 s",
            stubs=["Blowfish::encrypt_pair -> recorder returning fresh nondeterministic pairs (521 calls)"])
-H("C11", "blowfish", "c11_key_schedule_8", tier="quick", timeout=900, bounds="all 2^64 8-byte keys", **_KS)
+H("C11", "blowfish", "c11_key_schedule_8", tier="quick", timeout=600, bounds="all 2^64 8-byte keys", **_KS)
 H("C11", "blowfish", "c11_key_schedule_16", tier="thorough", timeout=1800, bounds="all 16-byte keys", **_KS)
 H("C11", "blowfish", "c11_key_schedule_56", tier="thorough", timeout=1800, bounds="all 56-byte keys", **_KS)
 H("C11", "blowfish", "c11_published_vector_zero_key", tier="thorough", timeout=1800, unwind=130,
   bounds="one concrete published vector (key 0^8, block 0^8) through new+encrypt; decided by constant propagation",
-  encodes=["blowfish::Blowfish::new", "blowfish::Blowfish::encrypt"] + _BF)
+  encodes=["blowfish::Blowfish::new", "blowfish::Blowfish::encrypt"] + _BF, kani_args=["--no-assertion-reach-checks"],
+  no_cover="fully concrete harness without assumptions")
 H("C11", "blowfish", "c11_pipeline_witness", expect="witness-fail", bounds="assert(false) twin: must be reported as failing")
+
+# ================================================================================================
+# C12 — hashes
+# ================================================================================================
+H("C12", "crc", "c12_jamcrc_table", unwind=258, bounds="all 256 table entries", encodes=["crc::Jamcrc::new"])
+H("C12", "crc", "c12_jamcrc_step_inductive", unwind=258,
+  bounds="one loop iteration from every register value (2^32) and every byte: inductive step for any length",
+  encodes=["crc::Jamcrc::new", "loop body of crc::Jamcrc::checksum (re-stated in the harness)"])
+for n, t in ((0, "quick"), (1, "quick"), (2, "quick"), (3, "quick"), (4, "quick"), (5, "thorough"), (6, "thorough"), (8, "thorough")):
+    H("C12", "crc", "c12_jamcrc_len%d" % n, tier=t, timeout=900, unwind=258,
+      bounds="all byte strings of length %d" % n, encodes=["crc::Jamcrc::new", "crc::Jamcrc::checksum"])
+for n, t in ((0, "quick"), (1, "quick"), (2, "thorough"), (3, "thorough")):
+    H("C12", "crc", "c12_xivcrc_len%d" % n, tier=t, timeout=1800, unwind=10,
+      bounds="all byte strings of length %d" % n,
+      encodes=["crc::XivCrc32::from", "crc::crc32", "libz_rs_sys::crc32 (zlib-rs, real code)"])
+H("C12", "crc", "c12_pipeline_witness", expect="witness-fail", bounds="assert(false) twin")
+H("C12", "sha1", "c12_sha1_compress_full", timeout=900, unwind=82,
+  bounds="all 2^160 chaining values x all 2^512 blocks (one compression call)",
+  encodes=["sha1::Sha1State::process", "sha1::sha1_digest_round_x4", "sha1::sha1rnds4c/p/m", "sha1::sha1msg1", "sha1::sha1msg2", "sha1::sha1_first_half"])
+for g in ("choose", "parity1", "majority", "parity2"):
+    H("C12", "sha1", "c12_sha1_rounds4_%s" % g, unwind=6,
+      bounds="all working variables a..e and four message words; textbook association of the round formula",
+      encodes=["sha1::sha1_digest_round_x4", "sha1::sha1_first_add"])
+H("C12", "sha1", "c12_sha1_schedule", unwind=22, bounds="all 16 previous words -> 4 new words",
+  encodes=["sha1::sha1msg1", "sha1::sha1msg2"])
+_PAD = dict(encodes=["sha1::Sha1::from", "sha1::Sha1::update", "sha1::Blocks::input", "sha1::Sha1::digest"],
+            stubs=["Sha1State::process -> block recorder"], replay="structural")
+for n, t in ((0, "quick"), (1, "thorough"), (55, "quick"), (56, "quick"), (57, "thorough"), (63, "quick"), (64, "quick"),
+             (65, "thorough"), (119, "quick"), (120, "quick"), (128, "thorough"), (183, "thorough"), (184, "thorough")):
+    H("C12", "sha1", "c12_sha1_padding_len%d" % n, tier=t, timeout=600, unwind=200,
+      bounds="message length %d (concrete), all contents" % n, **_PAD)
+H("C12", "sha1", "c12_sha1_padding_symbolic_len", tier="thorough", timeout=1800, unwind=130,
+  bounds="all lengths 0..=120 (symbolic), all contents", **_PAD)
+H("C12", "sha1", "c12_sha1_padding_two_updates", tier="thorough", timeout=1800, unwind=80,
+  bounds="70-byte message split at every point into two update() calls", **_PAD)
+H("C12", "sha1", "c12_sha1_init_and_digest_bytes", unwind=22, bounds="initial state constants; all 2^160 states -> 20 big-endian bytes",
+  encodes=["sha1::Sha1::new", "sha1::Digest::bytes"])
+H("C12", "sha1", "c12_sha1_fips_vector_abc", tier="thorough", timeout=600, unwind=82,
+  bounds="one concrete FIPS vector end to end (constant propagation)", encodes=["sha1::Sha1::from", "sha1::Sha1::digest"])
+H("C12", "sha1", "c12s_pipeline_witness", expect="witness-fail", bounds="assert(false) twin")
+
+# ================================================================================================
+# C13 — textures
+# ================================================================================================
+H("C13", "bcn", "c13_bc1_block", unwind=18, bounds="all 2^64 BC1 blocks, every pixel of the block", encodes=["bcn::bc1::decode_bc1_block", "bcn::color::rgb565_le", "bcn::color::color"])
+for ch in (3, 2, 1):
+    H("C13", "bcn", "c13_bc3_alpha_ch%d" % ch, unwind=18, bounds="all 2^64 alpha blocks, channel %d, arbitrary prior pixel contents" % ch,
+      encodes=["bcn::bc3::decode_bc3_alpha"])
+H("C13", "bcn", "c13_bc3_block", unwind=18, bounds="all 2^128 BC3 blocks", encodes=["bcn::bc3::decode_bc3_block"])
+H("C13", "bcn", "c13_bc5_block", unwind=18, bounds="all 2^128 BC5 blocks", encodes=["bcn::bc5::decode_bc5_block"])
+for hh, t in ((1, "thorough"), (3, "quick"), (4, "thorough"), (5, "quick"), (8, "thorough"), (9, "thorough")):
+    H("C13", "bcn", "c13_copy_block_h%d" % hh, tier=t, unwind=6, timeout=600,
+      bounds="image height %d x widths {1,2,3,4,5,7,8,9}, every block position (enumerated), every pixel (symbolic), all pixel contents" % hh,
+      encodes=["bcn::color::copy_block_buffer"])
+for (w, h, t) in ((1, 1, "quick"), (4, 4, "quick"), (5, 5, "quick"), (6, 4, "quick"), (3, 7, "thorough"), (8, 8, "thorough"), (9, 2, "thorough")):
+    H("C13", "bcn", "c13_image_bc1_%dx%d" % (w, h), tier=t, timeout=900, unwind=18, bounds="BC1 image %dx%d (concrete size), all data bytes, every pixel" % (w, h),
+      encodes=["bcn::decode_bc1 (block_decoder! macro)", "bcn::color::copy_block_buffer", "bcn::bc1::decode_bc1_block"])
+for f in ("bc3", "bc5"):
+    for (w, h, t) in ((4, 4, "quick"), (5, 3, "quick"), (6, 6, "thorough")):
+        H("C13", "bcn", "c13_image_%s_%dx%d" % (f, w, h), tier=t, timeout=900, unwind=18,
+          bounds="%s image %dx%d (concrete size), all data bytes, every pixel" % (f.upper(), w, h), encodes=["bcn::decode_%s" % f])
+H("C13", "bcn", "c13_image_short_data_rejected", unwind=18, bounds="data one byte short / image buffer one pixel short", encodes=["bcn::decode_bc1", "bcn::decode_bc3", "bcn::decode_bc5"])
+H("C13", "bcn", "c13_pipeline_witness", expect="witness-fail", bounds="assert(false) twin")
+H("C13", "tex", "c13_texture_decode_reorders_bgra", unwind=18, timeout=600, bounds="BC1 4x4 through Texture::decode: all data, every pixel", encodes=["tex::Texture::decode"])
+for n in ("2x2x1", "1x2x2", "3x1x1"):
+    H("C13", "tex", "c13_from_existing_bgra_" + n, tier="quick" if n == "2x2x1" else "thorough", unwind=20, timeout=900,
+      bounds="B8G8R8A8 %s: all attribute words, all payload bytes, every pixel" % n, encodes=["tex::Texture::from_existing", "tex::TexHeader (binrw)"],
+      cbmc_args=FS256)
+for n, t in (("bc1_4x4", "thorough"), ("bc1_5x3", "thorough"), ("bc3_4x4", "thorough"), ("bc5_4x4", "thorough"), ("bc1_4x4x2", "thorough")):
+    H("C13", "tex", "c13_from_existing_" + n, tier=t, unwind=20, timeout=1800,
+      bounds="%s: all attribute words, all payload bytes, every pixel" % n, encodes=["tex::Texture::from_existing", "tex::Texture::decode"],
+      cbmc_args=FS256)
+
+# ================================================================================================
+# C05 — Excel sheets
+# ================================================================================================
+_RR = ["exd::EXD::read_row", "exd::EXD::read_column", "exd::EXD::read_data_raw"]
+_CELLS = [("bool_at0", "q"), ("bool_at5", "t"), ("bool_at15", "q"), ("packed0_at1", "q"), ("packed1_at2", "t"), ("packed2_at0", "t"),
+          ("packed3_at5", "q"), ("packed4_at15", "q"), ("packed5_at7", "t"), ("packed6_at3", "t"), ("packed7_at14", "q"),
+          ("i8_at1", "q"), ("u8_at15", "q"), ("i16_at2", "q"), ("u16_at5", "q"), ("u16_at14", "t"), ("i32_at0", "q"), ("u32_at5", "q"),
+          ("u32_at12", "t"), ("f32_at1", "q"), ("f32_at8", "t"), ("i64_at0", "q"), ("u64_at5", "q"), ("u64_at8", "t")]
+for n, t in _CELLS:
+    H("C05", "exd", "c05_cell_" + n, tier="quick" if t == "q" else "thorough", timeout=300, unwind=18,
+      bounds="one row, 16-byte fixed region with all bytes symbolic, one column of the named type at the named (concrete) offset",
+      encodes=_RR)
+H("C05", "exd", "c05_row_three_columns", timeout=300, unwind=18, bounds="one row, three columns (u16@6, packed bool 2@9, i32@0), all 16 row bytes symbolic", encodes=_RR)
+for n, t in (("empty_at0", "quick"), ("len1_at3", "quick"), ("len5_at2", "quick"), ("len12_at9", "thorough")):
+    H("C05", "exd", "c05_string_" + n, tier=t, timeout=300, unwind=26,
+      bounds="string column: concrete text and heap offset; all other row bytes and all surrounding heap bytes symbolic", encodes=_RR,
+      cbmc_args=FS256)
+H("C05", "exd", "c05_subrows_2x4", timeout=300, unwind=40, bounds="2 sub-rows of 4 bytes, all bytes symbolic, symbolic sub-row index", encodes=_RR)
+H("C05", "exd", "c05_subrows_3x8", timeout=600, tier="thorough", unwind=40, bounds="3 sub-rows of 8 bytes, all bytes symbolic", encodes=_RR)
+H("C05", "exd", "c05_subrows_wide_records", timeout=300, unwind=8,
+  bounds="3 sub-rows of 33000 bytes (stride arithmetic beyond 16 bits) over a short buffer; packed-bool column (out-of-range cells read as false)",
+  encodes=_RR[:2], stubs=["EXD::read_data_raw -> guard returning None for reads past the end, real binrw reader otherwise"])
+for n in ("second", "first_of_duplicates", "unknown", "big_id"):
+    H("C05", "exd", "c05_row_lookup_" + n, timeout=300, unwind=18,
+      bounds="two index entries, concrete ids per instance (match second / duplicate ids / no match / id >= 2^31), symbolic row contents", encodes=_RR,
+      cbmc_args=FS256)
+H("C05", "exd", "c05_pipeline_witness", expect="witness-fail", unwind=18, bounds="assert(false) twin")
